@@ -302,10 +302,25 @@ def gen_consts():
     c["KEY_MAX"] = num(kcd, r"pub const KEY_MAX: u16 = (\d+);", "key_code.rs: KEY_MAX")
     c["RELOAD_IDLE_TICKS"] = num(kan, r"\|\| self\.ticks_since_idle > (\d+)\)", "kanata/mod.rs: live reload idle fallback")
     c["REPLAY_PACING"] = num(dyn, r"state\.delay_remaining = (\d+);", "dynamic_macro.rs: replay pacing")
+    # the two mouse-button tables: codes kanata reads as buttons (output_logic.rs, osc_to_btn) and the code each button is
+    # written with on Linux (keys/linux.rs, From<Btn> for OsCode); buttons numbered Left 0, Right 1, Mid 2, Forward 3, Backward 4
+    oc, _ = parse_discr_enum("parser/src/keys/mod.rs", "OsCode")
+    ocmap = dict(oc)
+    BTN = {"Left": 0, "Right": 1, "Mid": 2, "Forward": 3, "Backward": 4}
+    outl = strip_comments(rd("src/kanata/output_logic.rs"))
+    m = need(re.search(r"fn osc_to_btn\(osc: OsCode\) -> Btn \{(.*?)\n\}", outl, re.S), "output_logic.rs: osc_to_btn")
+    in_tab = [(ocmap[a], BTN[b]) for a, b in re.findall(r"(BTN_\w+)\s*=>\s*(\w+),", m.group(1))]
+    need(len(in_tab) == 5, "output_logic.rs: osc_to_btn has five button arms")
+    lin = strip_comments(rd("parser/src/keys/linux.rs"))
+    m = need(re.search(r"impl From<Btn> for OsCode \{(.*?)\n\}", lin, re.S), "keys/linux.rs: From<Btn> for OsCode")
+    out_tab = [(BTN[b], ocmap[a]) for b, a in re.findall(r"Btn::(\w+)\s*=>\s*OsCode::(\w+),", m.group(1))]
+    need(len(out_tab) == 5, "keys/linux.rs: From<Btn> for OsCode has five arms")
     body = "\n".join("Definition src_%s : N := %d." % (k, v) for k, v in sorted(c.items()))
+    body += "\nDefinition src_osc_to_btn : list (N * N) := [%s]." % "; ".join("(%d, %d)" % t for t in in_tab)
+    body += "\nDefinition src_btn_to_osc : list (N * N) := [%s]." % "; ".join("(%d, %d)" % t for t in out_tab)
     v = ("(* GENERATED by tools/gen_tables.py from keyberon/src/{layout,action,multikey_buffer,chord,key_code}.rs and\n"
          "   src/kanata/{mod,dynamic_macro}.rs - do not edit.  Capacities and thresholds as the source states them now. *)\n"
-         "From Coq Require Import NArith.\nOpen Scope N_scope.\n" + body + "\n")
+         "From Coq Require Import NArith List.\nImport ListNotations.\nOpen Scope N_scope.\n" + body + "\n")
     ch = write_if_changed("Consts.v", v)
     return {"Consts.v": ch, "n_consts": len(c)}
 
